@@ -485,7 +485,16 @@ static void ret_cplx(ctx_t *c, double complex v) { sb_cplx(&c->ret, v); }
 static void ret_str(ctx_t *c, const char *s) { sb_jstr(&c->ret, s); }
 static void ret_bool(ctx_t *c, int b) { sb_puts(&c->ret, b ? "true" : "false"); }
 
-#define CALL(stmt) do { errno = 0; stmt; c->err = errno; } while (0)
+/*
+ * What errno holds when the library is entered.  Scripts may set it to a value
+ * no library or libc function produces ("errno_preset N"): a caller's errno is
+ * whatever an earlier, unrelated call left behind, and no documented result
+ * depends on it.  A call that leaves errno untouched is reported as errno 0.
+ */
+static int verif_errno_preset = 0;
+#define ERRNO_PRESET()	(errno = verif_errno_preset)
+#define ERRNO_SEEN()	(errno == verif_errno_preset ? 0 : errno)
+#define CALL(stmt) do { ERRNO_PRESET(); stmt; c->err = ERRNO_SEEN(); } while (0)
 
 static void out_rvec(sb_t *b, const double *v, int n)
 {
@@ -894,6 +903,7 @@ int main(int argc, char **argv)
 	    if (n >= 2 && strcmp(tv[0].s, "!case") == 0) {
 		end_case();
 		verif_io_kind = 0;
+		verif_errno_preset = 0;
 		snprintf(cur_case, sizeof(cur_case), "%s", tv[1].s);
 		case_line0 = lineno;
 		fprintf(logfp, "{\"case\":\"%s\",\"i\":%d}\n", cur_case, lineno);
